@@ -1,4 +1,4 @@
 SPECIFICATION Spec
-CONSTANTS Depth = 4 Pre = 1 Deep = TRUE
+CONSTANTS Depth = 4 Pre = 1 Deep = FALSE
 INVARIANT Emit
 CHECK_DEADLOCK FALSE
